@@ -37,6 +37,7 @@ func suiteC20(r *Run) {
 		done := false
 		pendingSend := map[string]bool{}
 		recvIssued := false // the client has called RecvMsg at least once
+		lastCrOp := ""
 		csSendOpen, hReturned := false, false // a client SendMsg without a result yet; the handler function has returned
 		for _, st := range sc.steps {
 			if st.actor == "cs" && st.op == "send" {
@@ -44,6 +45,9 @@ func suiteC20(r *Run) {
 			}
 			if st.actor == "cr" && st.op == "recv" {
 				recvIssued = true
+			}
+			if st.actor == "cr" {
+				lastCrOp = st.op // the receiving side issues one operation at a time: its next result belongs to this one
 			}
 			if _, ok := evRes(st.evs, "cs"); ok {
 				csSendOpen = false
@@ -66,8 +70,11 @@ func suiteC20(r *Run) {
 			for _, e := range st.evs {
 				// a Header() that found no headers frame has looked at the first frame of the stream and may hold (peek) one
 				// data frame; one that returned the handler's headers took exactly the headers frame and nothing else
-				if e == "cr:md:-" {
-					headerCalls = 1
+				if e == "cr:md:-" && lastCrOp == "header" {
+					headerCalls = 1 // (Trailer() never looks at the stream)
+				}
+				if strings.HasPrefix(e, "cr:msg:") {
+					headerCalls = 0 // the message Header() may have been holding has been handed out
 				}
 			}
 			if st.actor == "env" || (st.actor == "h" && st.op == "return") {
